@@ -91,10 +91,10 @@ def save_xye(
     to_save = np.c_[da.coords[coord].values, da.values, np.sqrt(da.variances)]
     if header is GenerateHeader:
         header = _generate_xye_header(da, coord)
-    else:
-        # np.savetxt only prefixes lines separated by '\n' with the comment marker
-        # but readers also treat carriage returns as line breaks.
-        header = header.replace('\r\n', '\n').replace('\r', '\n')
+    # np.savetxt only prefixes lines separated by '\n' with the comment marker
+    # but readers also treat carriage returns as line breaks.
+    # (The generated header contains the coordinate name.)
+    header = header.replace('\r\n', '\n').replace('\r', '\n')
 
     get_logger().info(
         "Saving data with unit %s and coordinate '%s' to XYE file %s",
